@@ -15,8 +15,9 @@ Hand-written, executable, import-free model of
 The decoding tables are a PARAMETER (`Tables`): Props/C07.lean and the driver instantiate them with
 the tables translated from /repo (Gen/Redir.lean).
 
-Seven behaviours of today's code that contradict the documented routing are switchable (`Quirks`):
-`Quirks.current` is the code as it is, `Quirks.fixed` the obvious repair of each.  The harness asks
+Seven behaviours of the PINNED SNAPSHOT of xonsh that contradict the documented routing are switchable (`Quirks`):
+`Quirks.fixed` is the code since the seven repairs (ce03276 55d432e c8fac0d 58fc858 e44af9d 6c98380 0a66bfd),
+`Quirks.current` the snapshot before them (all seven present).  The harness asks
 the implementation which ones it still has (known-finding witnesses) and runs the model with those.
 -/
 namespace Redir
@@ -294,7 +295,7 @@ def isAlias : Kind → Bool
   | .alias _ => true
   | .proc _ => false
 
-/-- the behaviours of today's code that contradict the documented routing (true = still present) -/
+/-- the behaviours of the pinned snapshot that contradict the documented routing (true = present) -/
 structure Quirks where
   bothMinusOne : Bool        -- ProcProxyThread.run: `errwrite == c2pwrite` also holds when both are -1
   pickBufSmallInt : Bool     -- ProcProxy._pick_buf: an int handle < 3 (2, or subprocess.STDOUT = -2) means "the sys stream"
@@ -334,7 +335,7 @@ def updateLast (q : Quirks) (cfg : Cfg) (cap : Cap) (s : Spec) : Spec :=
       -- "redirect stdout to stderr, if we should"
       let s4 : Spec :=
         if s3.sout = some .fd2 then
-          -- today: `last._stdout = last.stderr`, also when stderr is None (captured == "stdout");
+          -- snapshot: `last._stdout = last.stderr`, also when stderr is None (captured == "stdout");
           -- repaired: `last.stderr if last.stderr is not None else sys.stderr`
           { s3 with sout := if q.flag2BecomesNone then s3.serr else (match s3.serr with | some x => some x | none => some .shellErr) }
         else s3
@@ -414,7 +415,7 @@ def srcOf (q : Quirks) (s : Spec) : Src :=
   | some (.pipeR _) => .pipe
   | _ => .inherit
 
-/-- `SubprocSpec.run`: today the flag 2 of `o>e` is handed on as it is; repaired, it is replaced by the command's own
+/-- `SubprocSpec.run`: in the snapshot the flag 2 of `o>e` is handed on as it is; repaired, it is replaced by the command's own
 stderr handle when there is one (a file or a pipe end) -/
 def resolveFd2 (q : Quirks) (s : Spec) : Spec :=
   if !q.fd2Literal && s.sout = some .fd2 then
